@@ -213,7 +213,7 @@ def finalize(cases, results, tier):
         for lvl in ("psms", "peptides"):
             for a in ALPHAS:
                 fdps = [o[lvl][str(a)][0] / max(1, o[lvl][str(a)][1]) for o in obs if lvl in o]
-                if len(fdps) < 8:
+                if len(fdps) < 12:
                     continue
                 R = len(fdps)
                 m = float(np.mean(fdps))
